@@ -124,10 +124,10 @@ def frac(x):
     return x.e / x.den if x.den is not None else x.e
 
 
-def concrete_run(text, examples, normalize, index_of, w0, steps=2, propagate=False):
+def concrete_run(text, examples, normalize, index_of, w0, steps=2, propagate=False, infer_ad=True):
     """plain float run of the real code from the initial weights w0 (replay of a solver model)"""
     try:
-        p = LFIProblem(PrologString(text), examples, normalize=normalize, propagate_evidence=propagate)
+        p = LFIProblem(PrologString(text), examples, normalize=normalize, propagate_evidence=propagate, infer_AD_values=infer_ad)
         p.prepare()
         for pr, i in index_of.items():
             p._weights[i] = float(w0[pr])
@@ -234,7 +234,13 @@ def work(item):
         return r, (s.model() if r == "sat" else None)
 
     def model_w(m):
-        return dict((pr, Fraction(str(m.eval(z3.Real(pr), model_completion=True).as_fraction()))) for pr in params)
+        out = {}
+        for pr in params:
+            v = m.eval(z3.Real(pr), model_completion=True)
+            if z3.is_algebraic_value(v):
+                v = v.approx(20)          # an irrational witness: a rational neighbour is replayed instead
+            out[pr] = Fraction(str(v.as_fraction()))
+        return out
 
     # reference likelihood of every distinct example as a polynomial in the parameters
     n = refsem.world_count(G)
@@ -302,7 +308,7 @@ def work(item):
                 got = sum(out[0][1][pr] for pr in g) + float(1 - avail)
                 if got > 1 + 1e-9:
                     st.ob("refuted", key=okey + ":adsum")
-                    violation("ad-sum", "from current parameters %s one iteration learns an annotated disjunction with total mass %s" % (w0, got),
+                    violation("ad-sum:fixed-head-not-accounted" if avail < 1 else "ad-sum", "from current parameters %s one iteration learns an annotated disjunction with total mass %s" % (w0, got),
                               {"w0": dict((k_, str(v)) for k_, v in w0.items())})
                 else:
                     st.ob("inconclusive", key=okey + ":adsum", note="ad-sum model did not replay")
@@ -436,6 +442,22 @@ def work(item):
                 kind_ = "monotone"
                 if groups and ref_ll(held) >= ref_ll(w0) - 1e-9:
                     kind_ = "monotone:ad-update"
+                elif groups and out[0][2] < len(exs):
+                    # a consistent example was dropped in the E-step: is the decrease gone when LFI does not invent evidence?
+                    try:
+                        out2 = concrete_run(text, examples, normalize, index_of, w0, steps=2, propagate=propagate, infer_ad=False)
+                        if out2[0][2] == len(exs) and not (out2[1][0] < out2[0][0] - 1e-9):
+                            kind_ = "infer-ad-values:evidence-invented-although-the-body-is-false"
+                        elif out2[0][2] == len(exs):
+                            # both known defects act together: without the invented evidence the remaining decrease is the AD update's
+                            held2 = dict(out2[0][1])
+                            for g, _a in groups:
+                                for pr in g:
+                                    held2[pr] = w0[pr]
+                            if ref_ll(held2) >= ref_ll(w0) - 1e-9:
+                                kind_ = "monotone:ad-update"
+                    except Exception:
+                        pass
                 what = "log-likelihood decreases: %s at the current parameters %s, %s after one iteration (%s)" % (
                     out[0][0], w0, out[1][0], out[0][1])
                 if dropped:
